@@ -1064,6 +1064,37 @@ struct Emitter
             return false;
         };
 
+        // lexical try blocks: statement -> dispatch block of the innermost
+        // enclosing try (clang's CFG has no exceptional edges from calls)
+        struct TryInfo { unsigned b, e; int dispatch; };
+        std::vector<TryInfo> tryInfos;
+        {
+            std::map<const Stmt*, int> dispatchOf;
+            for (const CFGBlock* B : *G)
+                if (const Stmt* T = B->getTerminatorStmt())
+                    if (isa<CXXTryStmt>(T))
+                        dispatchOf[T] = (int)B->getBlockID();
+            struct TC : RecursiveASTVisitor<TC> {
+                std::vector<const CXXTryStmt*> v;
+                bool VisitCXXTryStmt(CXXTryStmt* T) { v.push_back(T); return true; }
+                bool TraverseLambdaExpr(LambdaExpr*) { return true; }
+            } tc;
+            tc.TraverseStmt(Body);
+            for (auto* T : tc.v) {
+                auto it = dispatchOf.find(T);
+                if (it == dispatchOf.end()) continue;
+                SourceLocation b = SM.getExpansionLoc(T->getTryBlock()->getBeginLoc());
+                SourceLocation e = SM.getExpansionLoc(T->getTryBlock()->getEndLoc());
+                tryInfos.push_back({SM.getFileOffset(b), SM.getFileOffset(e), it->second});
+            }
+        }
+        auto ehOf = [&](const Stmt* S) -> int {
+            unsigned o = SM.getFileOffset(SM.getExpansionLoc(S->getBeginLoc()));
+            int best = -1; unsigned bestLen = ~0u;
+            for (auto& t : tryInfos)
+                if (o >= t.b && o <= t.e && (t.e - t.b) < bestLen) { best = t.dispatch; bestLen = t.e - t.b; }
+            return best;
+        };
         F["entry"] = (int64_t)G->getEntry().getBlockID();
         F["exit"] = (int64_t)G->getExit().getBlockID();
         json::Array Blocks;
@@ -1085,6 +1116,9 @@ struct Emitter
                         if (auto* XO = X.getAsObject()) {
                             (*XO)["line"] = lineOf(S->getBeginLoc());
                             (*XO)["ci"] = (int64_t)cfgIdx;
+                            int eh = ehOf(S);
+                            if (eh >= 0)
+                                (*XO)["eh"] = eh;
                             unsigned sl = SM.getSpellingLineNumber(
                               SM.getSpellingLoc(S->getBeginLoc()));
                             if (sl != lineOf(S->getBeginLoc()))
